@@ -62,7 +62,7 @@ def run(ctx):
                 except OSError:
                     missing += 1
         ex = (-9 if r.exit is None else r.exit) if not r.timed_out else -7
-        recs, nev = evplane.records(rid, st["out"], root, ["s"], ["d"], {"fsync": False, "reflink": "auto"}, ex, must_succeed=True, missing=missing,
+        recs, nev = evplane.records(rid, st["out"], root, ["s"], ["d"], {"fsync": False, "reflink": "auto", "driver": drv, "workers": w}, ex, must_succeed=True, missing=missing,
                                     only={"open", "close"})
         _rmtree(root)
         try:
@@ -86,6 +86,17 @@ def run(ctx):
     verdicts, st2 = evplane.judge(all_recs, len(all_recs))
     ctx.states += st1["distinct"] + st2["distinct"]; ctx.transitions += st1["generated"] + st2["generated"]
     ctx.tlc_jobs.append({"job": "Trace_Ev (descriptor peak, success under RLIMIT_NOFILE=1024)", "runs": len(res), "events": st2["events"], "wall_s": round(st1["wall"] + st2["wall"], 2)})
+    # Layer-A binding (advisory): the number of destination handles open at once, replayed by TraceA_Life, stays within
+    # XcpParblock!OpenBound (128 + W + 1) resp. XcpParfile's W
+    life, lm = evplane.life_judge(all_recs)
+    ctx.states += lm.distinct; ctx.transitions += lm.generated
+    ctx.notes["handle_bound"] = [{"run": v["run"], "max_handles": v["maxLive"], "model_bound": v["bound"]} for v in life]
+    for v in life:
+        if v["drift"]:
+            ctx.drift.append({"run": v["run"], "what": v["drift"][:3]})
+    if any(v["drift"] for v in life):
+        from ..common import log
+        log("MODEL-DRIFT: %d traced runs exceed the handle bound of the control-plane models" % sum(1 for v in life if v["drift"]))
     table = []
     for (n, ci), r, v in zip(jobs, res, verdicts):
         drv, w, extra, inj = CONFIGS[ci]
